@@ -54,12 +54,160 @@ func runC12(p *load.Program, r *core.Report) {
 	c12Cut(p, r)
 	c12Envelope(p, r)
 	c12Reassembly(p, r)
+	c12Header(p, r)
+	byteOrderRule(p, r, "C12.R1e byte-order", "C12.R1e", []string{"net/proto", "net/handshake"}, 100)
 	// R9: no frame is stranded in a receive queue
 	if a, problems := getAnchors(p); len(problems) == 0 {
 		r.Floor("C12.R9 no-stranded-frame", 1)
 		recvWorkerRecheck(a, r, "C12.R9 no-stranded-frame", "C12.R9")
 	} else {
 		r.Unk("C12.R9 no-stranded-frame", "C12.R9|anchors", "", "", "anchors resolve", strings.Join(problems, "; "))
+	}
+}
+
+// c12Header: R1h — every function that stamps a frame type (a protoMessage*/protoRequest* constant
+// stored at index 7 of a buffer) writes the complete header into the same buffer: magic at 0,
+// version at 1, the buffer's own length as a big-endian uint32 at [2:6], the receive-queue
+// selector at 6. The reader cuts the stream by the length field and routes by bytes 6 and 7.
+func c12Header(p *load.Program, r *core.Report) {
+	rule := "C12.R1h frame-header"
+	r.Floor(rule, 16)
+	pk := p.Pkg("net/proto")
+	if pk == nil {
+		r.Unk(rule, "C12.R1h|pkg", "", "", "package net/proto", "not found")
+		return
+	}
+	constVal := func(name string) (int64, bool) {
+		if o, ok := pk.Types.Scope().Lookup(name).(*types.Const); ok {
+			v, ok2 := constant.Int64Val(constant.ToInt(o.Val()))
+			return v, ok2
+		}
+		return 0, false
+	}
+	magic, ok1 := constVal("protoMagic")
+	version, ok2 := constVal("protoVersion")
+	if !ok1 || !ok2 {
+		r.Unk(rule, "C12.R1h|consts", "", "", "protoMagic / protoVersion resolve", "not found")
+		return
+	}
+	typeConsts := map[int64]bool{}
+	for _, n := range pk.Types.Scope().Names() {
+		if strings.HasPrefix(n, "protoMessage") || strings.HasPrefix(n, "protoRequest") {
+			if v, ok := constVal(n); ok {
+				typeConsts[v] = true
+			}
+		}
+	}
+	for _, f := range funcsOfPkgs(p, "net/proto") {
+		type hdr struct {
+			b0, b1, b6, b7 bool
+			b0v, b1v       int64
+			lenOK          bool
+			lenSeen        bool
+			pos            token.Pos
+		}
+		byBuf := map[ssa.Value]*hdr{}
+		get := func(b ssa.Value) *hdr {
+			if byBuf[b] == nil {
+				byBuf[b] = &hdr{}
+			}
+			return byBuf[b]
+		}
+		bufOf := func(v ssa.Value) ssa.Value {
+			base, path, ok := fieldPath(v)
+			if !ok || len(path) == 0 || path[len(path)-1] != "B" {
+				return nil
+			}
+			return canon(base)
+		}
+		eachInstr(f, func(in ssa.Instruction) {
+			switch x := in.(type) {
+			case *ssa.Store:
+				ia, ok := x.Addr.(*ssa.IndexAddr)
+				if !ok {
+					return
+				}
+				idx, okc := constInt(ia.Index)
+				if !okc {
+					return
+				}
+				b := bufOf(ia.X)
+				if b == nil {
+					return
+				}
+				h := get(b)
+				c, isC := constInt(x.Val)
+				switch idx {
+				case 0:
+					h.b0, h.b0v = isC, c
+				case 1:
+					h.b1, h.b1v = isC, c
+				case 6:
+					h.b6 = true
+				case 7:
+					if isC && typeConsts[c] {
+						h.b7 = true
+						h.pos = x.Pos()
+					}
+				}
+			case *ssa.Call:
+				sf := staticCallee(x.Common())
+				if sf == nil || sf.Name() != "PutUint32" || len(x.Common().Args) < 3 {
+					return
+				}
+				sl, ok := x.Common().Args[1].(*ssa.Slice)
+				if !ok {
+					return
+				}
+				lo, okl := constInt(sl.Low)
+				hi, okh := constInt(sl.High)
+				if sl.Low == nil || sl.High == nil || !okl || !okh || lo != 2 || hi != 6 {
+					return
+				}
+				b := bufOf(sl.X)
+				if b == nil {
+					return
+				}
+				h := get(b)
+				h.lenSeen = true
+				// value: uint32(buf.Len()) of the same buffer
+				if c, ok := strip(x.Common().Args[2]).(*ssa.Call); ok && callsNamed(c, "Len") && len(c.Common().Args) > 0 && canon(c.Common().Args[0]) == b {
+					h.lenOK = true
+				}
+			}
+		})
+		n := 0
+		for _, h := range byBuf {
+			if !h.b7 {
+				continue
+			}
+			n++
+			key := fmt.Sprintf("C12.R1h|%s#%d", fname(f), n)
+			if n == 1 {
+				key = "C12.R1h|" + fname(f)
+			}
+			inst := "the frame header is complete: magic, version, own length at [2:6], selector at 6, type at 7"
+			var probs []string
+			if !h.b0 || h.b0v != magic {
+				probs = append(probs, "byte 0 is not protoMagic")
+			}
+			if !h.b1 || h.b1v != version {
+				probs = append(probs, "byte 1 is not protoVersion")
+			}
+			if !h.lenSeen {
+				probs = append(probs, "the length field [2:6] is not written")
+			} else if !h.lenOK {
+				probs = append(probs, "the length field [2:6] is not the length of this buffer: the receiver cuts the stream at the wrong place")
+			}
+			if !h.b6 {
+				probs = append(probs, "byte 6 (receive-queue selector) is not written: a recycled buffer's old value selects the queue")
+			}
+			if len(probs) > 0 {
+				r.Bad(rule, key, fname(f), p.Pos(h.pos), inst, strings.Join(probs, "; "))
+			} else {
+				r.OK(rule, key, fname(f), p.Pos(h.pos), inst, "B[0]=magic B[1]=version PutUint32(B[2:6], Len()) B[6] B[7]")
+			}
+		}
 	}
 }
 
